@@ -241,7 +241,7 @@ func rc4Workload() {
 	}
 
 	// seeded part: random keys of every length, random data 0..4096, random chunkings
-	rounds := r.Pick(2, 12)
+	rounds := r.Pick(10, 80)
 	for round := 0; round < rounds; round++ {
 		for kl := 1; kl <= 256; kl++ {
 			key := gen.Bytes(rng, kl)
@@ -277,7 +277,7 @@ func rc4Workload() {
 	}
 
 	// 1 MiB streams
-	for t := 0; t < r.Pick(2, 8); t++ {
+	for t := 0; t < r.Pick(4, 24); t++ {
 		key := gen.Bytes(rng, []int{1, 5, 16, 256, 1 + rng.IntN(256)}[rng.IntN(5)])
 		data := gen.Bytes(rng, 1<<20)
 		want := wantRC4(key, data)
